@@ -4,14 +4,14 @@ import Mathlib.Data.List.Nodup
 /-!
 # C04 — load, save, load again: input is normalised without loss
 
-Font level, on the model of `Model/RoundTrip.lean`.  What `loadFont` returns after norad's own
+(Font P) level, on the model of `Model/RoundTrip.lean`.  What `loadFont` returns after norad's own
 `saveFont` is again a valid font inside the number guards (`rtFont_valid`, `rtFont_numbers`), so one
 more save + load returns the same font (`norad_output_is_fixed_point`); whatever is written says
 creator norad / format 3 (`output_is_v3`); a default layer anywhere in `layercontents.plist` is moved
 to the front and the others keep their order (`layers_default_moved_to_front`, in `Props/C01`).
 
 Full-strength statement for arbitrary accepted trees,
-  `loadFont t = .ok f → ∃ t' f', saveFont f = .ok t' ∧ loadFont t' = .ok f' ∧ FontEquiv f f'`,
+  `loadFont t = .ok f → ∃ t' f', saveFont f = .ok t' ∧ loadFont t' = .ok f' ∧ FontEquiv L f f'`,
 is FALSE on the tree: `objectlibs_key_without_fontinfo_counterexample` (recorded finding).
 Under the guards "layer directories and glif file names listed once, the reserved lib key only together
 with fontinfo.plist" every loaded font is representable (`loaded_is_representable`) and, with the
@@ -20,9 +20,11 @@ Glif format 2 of what is written is below this model (glyphs are tokens): checke
 -/
 namespace RT
 
+variable {P : Parts} (L : PartLaws P)
+
 theorem sortGuide_id (g : Guide) : (sortGuide g).id = g.id := rfl
 
-theorem rtInfo_guides_ids (i : Info) :
+theorem rtInfo_guides_ids (i : (Info P)) :
     ((rtInfo i).guides.getD []).map (·.id) = (i.guides.getD []).map (·.id) := by
   simp only [rtInfo]
   cases i.guides with
@@ -30,7 +32,7 @@ theorem rtInfo_guides_ids (i : Info) :
   | some gs => simp [List.map_map, Function.comp_def, sortGuide_id]
 
 /-- what `load(save(f))` returns can be saved again: it is a valid font -/
-theorem rtFont_valid (f : Font) (hv : ValidFont f) : ValidFont (rtFont f) where
+theorem rtFont_valid (N : NormLaws L) (f : (Font P)) (hv : ValidFont L f) : ValidFont L (rtFont L f) where
   fv := rfl
   noKey := by
     simp only [rtFont, rtLib]
@@ -57,17 +59,27 @@ theorem rtFont_valid (f : Font) (hv : ValidFont f) : ValidFont (rtFont f) where
         have := hv.libIds g0 (by rw [hgs]; exact hg0) l0 hl0
         exact this
   dirs := by
-    have : (rtFont f).layers.map (·.dir) = f.layers.map (·.dir) := by
+    have : (rtFont L f).layers.map (·.dir) = f.layers.map (·.dir) := by
       simp [rtFont, rtLayer, List.map_map, Function.comp_def]
     rw [this]; exact hv.dirs
   defFirst := by
     obtain ⟨l, r, h1, h2⟩ := hv.defFirst
-    exact ⟨rtLayer l, r.map rtLayer, by simp [rtFont, h1], h2⟩
+    exact ⟨rtLayer L l, r.map (rtLayer L), by simp [rtFont, h1], h2⟩
   files := by
     intro l hl
     simp only [rtFont, List.mem_map] at hl
     obtain ⟨l0, hl0, rfl⟩ := hl
-    exact hv.files l0 hl0
+    have : (rtLayer L l0).glyphs.map (·.file) = l0.glyphs.map (·.file) := by
+      simp [rtLayer, normE, List.map_map, Function.comp_def]
+    rw [this]; exact hv.files l0 hl0
+  glyphsOK := by
+    intro l hl g hg
+    simp only [rtFont, List.mem_map] at hl
+    obtain ⟨l0, hl0, rfl⟩ := hl
+    simp only [rtLayer, List.mem_map] at hg
+    obtain ⟨g0, hg0, rfl⟩ := hg
+    exact N.norm_ok g0.tok (hv.glyphsOK l0 hl0 g0 hg0)
+  restValid := hv.restValid
 
 theorem numOK_ofInt (k : ℤ) : NumOK (NumV.ofInt k) := by
   intro q hq
@@ -102,7 +114,7 @@ theorem sat32_nonneg (n : ℤ) (h : 0 ≤ n) : 0 ≤ sat32 n := by
   · split <;> omega
 
 /-- what `load(save(f))` returns is inside the number guards again -/
-theorem rtFont_numbers (f : Font) (hn : NumbersOK f) : NumbersOK (rtFont f) where
+theorem rtFont_numbers (f : (Font P)) (hn : NumbersOK f) : NumbersOK (rtFont L f) where
   info := by
     intro e he hl
     simp only [rtFont, rtInfo, loadNums, saveNums, List.map_map, List.mem_map, Function.comp_def] at he
@@ -162,20 +174,20 @@ theorem rtFont_numbers (f : Font) (hn : NumbersOK f) : NumbersOK (rtFont f) wher
 /-- **C04, norad's own output.**  For every valid font inside the number guards: the font obtained by
     save + load can be saved and loaded again, and that returns the same font (layers in order,
     colours, libs as maps, numbers within tolerance, feature text up to CR LF). -/
-theorem norad_output_is_fixed_point (f : Font) (hv : ValidFont f) (hn : NumbersOK f) :
+theorem norad_output_is_fixed_point (N : NormLaws L) (f : (Font P)) (hv : ValidFont L f) (hn : NumbersOK f) :
     ∃ t f', saveFont f = .ok t ∧ loadFont t = .ok f' ∧
-      ∃ t' f'', saveFont f' = .ok t' ∧ loadFont t' = .ok f'' ∧ FontEquiv f' f'' := by
-  obtain ⟨t, h1, h2⟩ := save_load_eq f hv
-  refine ⟨t, rtFont f, h1, h2, ?_⟩
-  exact font_roundtrip (rtFont f) (rtFont_valid f hv) (rtFont_numbers f hn)
+      ∃ t' f'', saveFont f' = .ok t' ∧ loadFont t' = .ok f'' ∧ FontEquiv L f' f'' := by
+  obtain ⟨t, h1, h2⟩ := save_load_eq L f hv
+  refine ⟨t, rtFont L f, h1, h2, ?_⟩
+  exact font_roundtrip L (rtFont L f) (rtFont_valid L N f hv) (rtFont_numbers L f hn)
 
 /-- whatever font is saved (also one that came from a format 1 or 2 tree: `load_impl` sets the format
     version to 3 before returning), the written metainfo says creator norad, formatVersion 3 -/
-theorem output_is_v3 (f : Font) (t : Tree) (h : saveFont f = .ok t) :
+theorem output_is_v3 (f : (Font P)) (t : (Tree P)) (h : saveFont f = .ok t) :
     t.creator = some defaultCreator ∧ t.fv = 3 := metainfo_roundtrip f t h
 
 /-- every loaded font carries format version 3 -/
-theorem loaded_is_v3 (t : Tree) (f : Font) (h : loadFont t = .ok f) : f.fv = 3 := by
+theorem loaded_is_v3 (t : (Tree P)) (f : (Font P)) (h : loadFont t = .ok f) : f.fv = 3 := by
   unfold loadFont at h
   cases hfi : t.fontinfo with
   | none =>
@@ -290,10 +302,10 @@ theorem plainGuides_ids (gs : List GuideF) :
 
 /-- what `loadInfo` returns: identifiers unique, libs only on guidelines with identifiers, the
     reserved key gone from the lib -/
-theorem loadInfo_valid (i : InfoF) (lib : Dict) (info : Info) (lib' : Dict)
+theorem loadInfo_valid (i : (InfoF P)) (lib : Dict) (info : (Info P)) (lib' : Dict)
     (h : loadInfo i lib = .ok (info, lib')) :
     idsNodup ((info.guides.getD []).map (·.id)) = true ∧ LibsHaveIds (info.guides.getD []) ∧
-    lookupKV objectLibsKey lib' = none := by
+    lookupKV objectLibsKey lib' = none ∧ restOK info = true := by
   unfold loadInfo at h
   split at h
   · cases h
@@ -301,11 +313,34 @@ theorem loadInfo_valid (i : InfoF) (lib : Dict) (info : Info) (lib' : Dict)
     simp only [Bool.not_eq_true, Bool.not_eq_false'] at hn
     have hn' : idsNodup ((i.guides.getD []).map (·.id)) = true := by
       cases hh : idsNodup ((i.guides.getD []).map (·.id)) <;> simp_all
+    have hr : ∃ rest, loadRest i.rest = some rest := by
+      cases hr : loadRest i.rest with
+      | none => simp [hr] at h
+      | some rest => exact ⟨rest, rfl⟩
+    obtain ⟨rest, hr⟩ := hr
+    simp only [hr] at h
+    have hro : ∀ x : (Info P), x.rest = rest → restOK x = true := by
+      intro x hx
+      unfold restOK; rw [hx]
+      unfold loadRest at hr
+      cases hi : i.rest with
+      | none => rw [hi] at hr; cases hr; rfl
+      | some rf =>
+        rw [hi] at hr
+        simp only at hr
+        cases hd : P.decRest rf with
+        | none => rw [hd] at hr; cases hr
+        | some y =>
+          rw [hd] at hr
+          simp only at hr
+          by_cases hv : P.restValid y = true
+          · simp only [hv, if_true, Option.some.injEq] at hr; subst hr; exact hv
+          · simp [hv] at hr
     cases hlk : lookupKV objectLibsKey lib with
     | none =>
       simp only [hlk] at h
       cases h
-      refine ⟨?_, ?_, hlk⟩
+      refine ⟨?_, ?_, hlk, hro _ rfl⟩
       · cases hg : i.guides with
         | none => rfl
         | some gs => rw [hg] at hn'; simpa [(plainGuides_ids gs).1] using hn'
@@ -321,7 +356,7 @@ theorem loadInfo_valid (i : InfoF) (lib : Dict) (info : Info) (lib' : Dict)
         | none =>
           simp only [hg] at h
           cases h
-          exact ⟨rfl, (by intro g hg'; cases hg'), lookupKV_erase_self _ _⟩
+          exact ⟨rfl, (by intro g hg'; cases hg'), lookupKV_erase_self _ _, hro _ rfl⟩
         | some gs =>
           simp only [hg] at h
           cases ha : attachLibs gs ol with
@@ -330,7 +365,7 @@ theorem loadInfo_valid (i : InfoF) (lib : Dict) (info : Info) (lib' : Dict)
             cases h
             obtain ⟨h1, h2⟩ := attachLibs_ids gs ol gs' ha
             rw [hg] at hn'
-            exact ⟨by simpa [h1] using hn', by simpa using h2, lookupKV_erase_self _ _⟩
+            exact ⟨by simpa [h1] using hn', by simpa using h2, lookupKV_erase_self _ _, hro _ rfl⟩
           | err e => simp [ha] at h
           | panic s => simp [ha] at h
       | str _ => simp at h
@@ -341,7 +376,7 @@ theorem loadInfo_valid (i : InfoF) (lib : Dict) (info : Info) (lib' : Dict)
       | date _ => simp at h
       | arr _ => simp at h
 
-theorem loadGlyphs_files (d : LayerDirF) : ∀ (c : List (String × String)) (gs : List GlyphE),
+theorem loadGlyphs_files (d : (LayerDirF P)) : ∀ (c : List (String × String)) (gs : List (GlyphE P)),
     loadGlyphs d c = some gs → gs.map (·.file) = c.map (·.2) := by
   intro c
   induction c with
@@ -352,17 +387,20 @@ theorem loadGlyphs_files (d : LayerDirF) : ∀ (c : List (String × String)) (gs
     simp only [loadGlyphs] at h
     cases hl : lookupS file d.glifs with
     | none => simp [hl] at h
-    | some tok =>
-      cases hr : loadGlyphs d r with
-      | none => simp [hl, hr] at h
-      | some gs0 =>
-        simp only [hl, hr] at h
-        cases h
-        simp [ih gs0 hr]
+    | some gf =>
+      cases hdc : P.decGlyph gf with
+      | none => simp [hl, hdc] at h
+      | some tok =>
+        cases hr : loadGlyphs d r with
+        | none => simp [hl, hdc, hr] at h
+        | some gs0 =>
+          simp only [hl, hdc, hr, Option.bind_some] at h
+          cases h
+          simp [ih gs0 hr]
 
 /-- every loaded layer has the name and directory of its `layercontents.plist` entry, in order, and
     its glif file names are those of `contents.plist` -/
-theorem loadLayers_shape (t : Tree) : ∀ (lc : List (String × String)) (ls : List Layer),
+theorem loadLayers_shape (t : (Tree P)) : ∀ (lc : List (String × String)) (ls : List (Layer P)),
     loadLayers t lc = .ok ls →
     ls.map (·.dir) = lc.map (·.2) ∧
     ∀ l ∈ ls, ∃ d, lookupS l.dir t.dirs = some d ∧ l.glyphs.map (·.file) = d.contents.map (·.2) := by
@@ -401,7 +439,7 @@ theorem loadLayers_shape (t : Tree) : ∀ (lc : List (String × String)) (ls : L
         | err e => simp [hl, hr] at h
         | panic s => simp [hl, hr] at h
 
-theorem defaultFirst_shape (ls ls' : List Layer) (h : defaultFirst ls = .ok ls') :
+theorem defaultFirst_shape (ls ls' : List (Layer P)) (h : defaultFirst ls = .ok ls') :
     ls'.Perm ls ∧ ∃ l r, ls' = l :: r ∧ l.dir = glyphsDir := by
   unfold defaultFirst at h
   cases hf : findDefault ls with
@@ -425,11 +463,12 @@ theorem defaultFirst_shape (ls ls' : List Layer) (h : defaultFirst ls = .ok ls')
     directory once, every glif file once per layer, and holds the reserved lib key only together with
     a fontinfo.plist, is a font `saveFont` accepts (the structural half of "everything accepted by the
     reader is representable by the writer"; the number guards are separate) -/
-theorem loaded_is_representable (t : Tree) (f : Font) (h : loadFont t = .ok f)
+theorem loaded_is_representable (t : (Tree P)) (f : (Font P)) (h : loadFont t = .ok f)
     (hdirs : nodupS (t.layercontents.map (·.2)) = true)
     (hfiles : ∀ e ∈ t.dirs, nodupS (e.2.contents.map (·.2)) = true)
-    (hkey : t.fontinfo.isSome = true ∨ lookupKV objectLibsKey (t.lib.getD []) = none) :
-    ValidFont f := by
+    (hkey : t.fontinfo.isSome = true ∨ lookupKV objectLibsKey (t.lib.getD []) = none)
+    (hglyphs : ∀ l ∈ f.layers, ∀ g ∈ l.glyphs, L.glyphOK g.tok) :
+    ValidFont L f := by
   have hfv := loaded_is_v3 t f h
   unfold loadFont at h
   -- the layer half is the same in both branches
@@ -447,7 +486,7 @@ theorem loaded_is_representable (t : Tree) (f : Font) (h : loadFont t = .ok f)
       obtain ⟨d, hd1, hd2⟩ := h2 l (hp.subset hl')
       rw [hd2]
       -- the directory found by lookup is one of the tree's directories
-      have : ∀ (ds : List (String × LayerDirF)), lookupS l.dir ds = some d → (l.dir, d) ∈ ds := by
+      have : ∀ (ds : List (String × (LayerDirF P))), lookupS l.dir ds = some d → (l.dir, d) ∈ ds := by
         intro ds
         induction ds with
         | nil => intro hh; simp [lookupS] at hh
@@ -475,7 +514,7 @@ theorem loaded_is_representable (t : Tree) (f : Font) (h : loadFont t = .ok f)
           · rw [hfi] at hk; cases hk
           · exact hk
         exact { fv := rfl, noKey := hk, ids := rfl, libIds := (by intro g hg; cases hg),
-                dirs := a, defFirst := b, files := c }
+                dirs := a, defFirst := b, files := c, glyphsOK := hglyphs, restValid := rfl }
       | err e => simp [hd] at h
       | panic s => simp [hd] at h
     | err e => simp [hl] at h
@@ -488,7 +527,7 @@ theorem loaded_is_representable (t : Tree) (f : Font) (h : loadFont t = .ok f)
     | ok p =>
       obtain ⟨info, lib⟩ := p
       simp only [hli] at h
-      obtain ⟨i1, i2, i3⟩ := loadInfo_valid i _ info lib hli
+      obtain ⟨i1, i2, i3, i4⟩ := loadInfo_valid i _ info lib hli
       cases hl : loadLayers t t.layercontents with
       | ok ls =>
         simp only [hl] at h
@@ -497,7 +536,8 @@ theorem loaded_is_representable (t : Tree) (f : Font) (h : loadFont t = .ok f)
           simp only [hd] at h
           cases h
           obtain ⟨a, b, c⟩ := layerHalf ls layers hl hd
-          exact { fv := rfl, noKey := i3, ids := i1, libIds := i2, dirs := a, defFirst := b, files := c }
+          exact { fv := rfl, noKey := i3, ids := i1, libIds := i2, dirs := a, defFirst := b, files := c,
+                  glyphsOK := hglyphs, restValid := i4 }
         | err e => simp [hd] at h
         | panic s => simp [hd] at h
       | err e => simp [hl] at h
@@ -506,16 +546,17 @@ theorem loaded_is_representable (t : Tree) (f : Font) (h : loadFont t = .ok f)
 /-- **C04, model level.**  Every accepted tree inside the guards: the loaded font is saved without
     error, the result loads, and the two loaded fonts are the same font (equal up to the creator tag —
     not part of `FontEquiv` — and CR LF in the feature text; numbers within tolerance) -/
-theorem load_save_load_fixed_point (t : Tree) (f : Font) (h : loadFont t = .ok f)
+theorem load_save_load_fixed_point (t : (Tree P)) (f : (Font P)) (h : loadFont t = .ok f)
     (hdirs : nodupS (t.layercontents.map (·.2)) = true)
     (hfiles : ∀ e ∈ t.dirs, nodupS (e.2.contents.map (·.2)) = true)
     (hkey : t.fontinfo.isSome = true ∨ lookupKV objectLibsKey (t.lib.getD []) = none)
+    (hglyphs : ∀ l ∈ f.layers, ∀ g ∈ l.glyphs, L.glyphOK g.tok)
     (hn : NumbersOK f) :
-    ∃ t' f', saveFont f = .ok t' ∧ loadFont t' = .ok f' ∧ FontEquiv f f' :=
-  font_roundtrip f (loaded_is_representable t f h hdirs hfiles hkey) hn
+    ∃ t' f', saveFont f = .ok t' ∧ loadFont t' = .ok f' ∧ FontEquiv L f f' :=
+  font_roundtrip L f (loaded_is_representable L t f h hdirs hfiles hkey hglyphs) hn
 
 /-- the tree of the recorded finding: lib.plist with the reserved key, no fontinfo.plist -/
-def objLibsNoInfoTree : Tree where
+def objLibsNoInfoTree : Tree tokenParts where
   creator := some "x"
   fv := 3
   minor := 0
